@@ -1,8 +1,9 @@
 """C20 - Style settings resolve by precedence and never leak.
 
-1. TLC model-checks spec/MC_Style (all histories of assignments to objects and defaults, resets, copies, rejected
-   assignments and show calls over a small universe, to the fixpoint): Precedence, Tracking, ResolveLocal,
-   LastWinsAndFrame, RejectedNoChange, InvalidRejected, ResetRestores, CopyIndependent.
+1. TLC model-checks spec/MC_Style (all histories of assignments to objects and defaults, resets, copies,
+   Collection.set_children_styles calls, rejected assignments and show calls over small universes, to the fixpoint):
+   Precedence, Tracking, ResolveLocal, LastWinsAndFrame, RejectedNoChange, InvalidRejected, ResetRestores,
+   CopyIndependent, KidsFrame, KidsMembers.
 2. Binding: the abstract behaviours are instantiated on EVERY real style leaf (catalogue read from as_dict of one
    object per style class and of magpylib.defaults.display.style; typed value table from the validators) through
    every notation; each step is executed on real objects, the abstract state and the style resolved by the display
@@ -19,7 +20,7 @@ from ..common import MachineryError, tier, workdir
 from ..drivers import style as drv
 from ..report import Report
 
-CFG = {"quick": "MC_Style_quick.cfg", "thorough": "MC_Style_thorough.cfg"}
+CFG = {"quick": ["MC_Style_quick.cfg", "MC_Style_quick_kids.cfg"], "thorough": ["MC_Style_thorough.cfg", "MC_Style_thorough_kids.cfg"]}
 
 
 def _worker_init():
@@ -52,8 +53,10 @@ def run():
     mc = {}
 
     def do_mc():
+        # two universes: objects a, b, c (assignments, defaults, resets, copies, show) and the collection tree k = [a, k2], k2 = [b]
+        # (set_children_styles interleaved with all of them; thorough: with the copy partner c as well)
         try:
-            mc["res"] = tlc.run_tlc("MC_Style", CFG[t], name="c20_mc", workers=4)
+            mc["res"] = [tlc.run_tlc("MC_Style", cfg, name=f"c20_mc{i}", workers=8) for i, cfg in enumerate(CFG[t])]
         except Exception as ex:  # pylint: disable=broad-except
             mc["err"] = ex
 
@@ -86,14 +89,14 @@ def run():
     th.join()
     if "err" in mc:
         raise mc["err"]
-    res = mc["res"]
-    if res.get("violated"):
-        raise MachineryError(f"MC_Style violates {res['violated']} (the requirement view is inconsistent):\n{res['out'][-3000:]}")
-    tlc.require_ok(res)
-    rep.set("states", res["distinct"])
-    rep.set("transitions", res["generated"])
+    for res in mc["res"]:
+        if res.get("violated"):
+            raise MachineryError(f"MC_Style/{res['cfg']} violates {res['violated']} (the requirement view is inconsistent):\n{res['out'][-3000:]}")
+        tlc.require_ok(res)
+    rep.set("states", sum(r["distinct"] for r in mc["res"]))
+    rep.set("transitions", sum(r["generated"] for r in mc["res"]))
+    rep.set("mc_universes", {r["cfg"]: {"states": r["distinct"], "transitions": r["generated"], "depth": r.get("depth")} for r in mc["res"]})
     rep.set("exhaustive", True)
-    rep.set("mc_depth", res.get("depth"))
     rep.phase("model_check_join")
     # 3. validate: 16 shards
     files = sorted(glob.glob(os.path.join(d, "t*.ndjson")))
@@ -123,7 +126,7 @@ def run():
     ndef_cat = sum(len(v) for v in cat["fam"].values())
     missing_def = sorted(f"{f}.{leaf}" for f, v in cat["fam"].items() for leaf in v if f"{f}.{leaf}" not in def_leaves
                          and drv.leaf_type(leaf.split(".")) is not None)
-    missing_ops = {"SetObj", "SetDef", "Reset", "Copy", "Show"} - set(stats["ops"])
+    missing_ops = {"SetObj", "SetDef", "Reset", "Copy", "Show", "SetKids"} - set(stats["ops"])
     if missing_ops:
         raise MachineryError(f"actions of MC_Style never instantiated on the implementation: {sorted(missing_ops)}")
     if missing_def and not flt:
@@ -157,7 +160,8 @@ def run():
         fams = sorted(notrestored) if (op == "Reset" and clause == "ResetRestores") else [tgt if op == "SetDef" else ""]
         for fam in fams:
             where = {"cls": cls, "leaf": leaf, "op": op, "notation": notation, "outcome": outcome, "family": fam}
-            what = (f"{cls}.{leaf}: {op}({tgt or s.get('src', '')}, {s.get('l', '')}, {s.get('v', '')}) via {notation} -> {outcome}"
+            arg = f"{s.get('asg')}, recursive={s.get('rec')}" if op == "SetKids" else f"{s.get('l', '')}, {s.get('v', '')}"
+            what = (f"{cls}.{leaf}: {op}({tgt or s.get('src', '')}, {arg}) via {notation} -> {outcome}"
                     f"{' ' + s.get('exc', '') if s.get('exc') else ''}{' family ' + fam if fam else ''}: {clause}")
             rep.reject(clause, where, what, det, prop=prop)
     # samples
@@ -172,7 +176,8 @@ def run():
                "a sample per leaf goes through magpylib.show(backend='plotly', return_fig=True)")
     rep.assume("family chains are Style!ClassChain (documentation); one object per style class stands for the classes sharing that style class "
                "(Cuboid for all homogeneous magnets, Circle for currents); attribute assignment of a dictionary at an intermediate level is "
-               "given the current sibling values so that it denotes a one-leaf change; Collection.set_children_styles and copy(style_..=) are not driven")
+               "given the current sibling values so that it denotes a one-leaf change; copy(style_..=) is not driven; set_children_styles runs on the fixed "
+               "tree k = [o, k2], k2 = [x], k3 = [w] (tree edits are C11's)")
     return rep.finish()
 
 
